@@ -277,7 +277,7 @@ extern "C" void harness_c15_recipes()
     Recipe r;
     r.root = g.gen(r, (int)verif_param("depth", 2), "t");
     ve::Env env = ve::std_env();
-    RCP<const Basic> e = build(r, r.root);
+    RCP<const Basic> e = build_or_skip(r, r.root);
     Dual ref = eval(r, r.root, env, "");
     std::string code;
     int pr = (int)verif_choice("printer", 3);
